@@ -23,14 +23,17 @@ CLAIMS = {
             "Bounded stand-in: 400+ generated models against an independent reference evaluator.",
             "environment algebra of L2/L3 (update, frame, distinct array cells do not alias) assumed; that the printed text denotes the Stmt list (printer, template) is assumed/bounded"),
     "C02": ("proof", "Proved: C argument builders exhaustively over all 6+24 argument orders, gotran2c.get_code assembles every part with every option, "
-            "emission functions shared with C01/C04. Bounded: C templates compiled and called on instances (index functions return the table entry "
-            "and -1). The C-specific arithmetic clauses (integer literals, fmod sign, abs on integers) are decided only by the bounded stand-in, "
-            "which compiles generated C with gcc and compares with the reference; their violations are listed known findings.",
-            "sympy's C99 printer is outside every contract; integer-literal quotients, fmod sign, abs() are known findings"),
+            "emission functions shared with C01/C04. Bounded instances: C templates compiled and called (index functions return the table entry and -1 "
+            "also for names that extend or truncate a known name; init functions fill exactly their slots, guard cells untouched); the C printer's own "
+            "overrides - Piecewise assignment form as one conditional chain, Float keeps a floating literal, Abs is fabs, Mod is compiled and "
+            "evaluated on all sign combinations against Python's %, bool_to_int replaces whole words only; class frame. The remaining C-specific "
+            "clause (quotients of integer literals) is decided only by the bounded stand-in and is a listed finding.",
+            "sympy's C99 printer is outside every contract (its inherited methods are assumed); integer-literal quotients are a known finding"),
     "C03": ("proof", "Proved: monitor_values / missing_values pass their own slot count to the template (the JAX template returns exactly "
             "_values_0.._values_{n-1}), missing_values writes each requested name to its requested slot incl. the early break (lemma), "
-            "And/Or/Not/sign printer overrides are elementwise nested binary calls (bounded instances 2..4 operands). Bounded stand-in runs the "
-            "generated JAX modules jitted and un-jitted.",
+            "And/Or/Not/sign printer overrides are elementwise nested binary calls (bounded instances 2..4 operands); JaxPrinter writes values[n] to "
+            "the variable _values_n that the template collects (instances); the JAX initial-value templates put defaults and keyword overrides in "
+            "their slots (emitted text executed under jax, jitted). Bounded stand-in runs the generated JAX modules jitted and un-jitted.",
             "jax/XLA semantics assumed; rhs slot count equals num_states relies on WF (one derivative per state)"),
     "C04": ("proof", "Proved: index dictionaries are positions in sorted_states / name-sorted parameters / monitored assignments; initial values are "
             "emitted slot by slot along the same enumerations; rhs, monitor_values and all three schemes write derivative x to slot count_sd "
@@ -55,9 +58,12 @@ CLAIMS = {
             "kind, and same expression tree / same value) ; TreeToODE.ode (nested loops over lines, atoms and component names, nested dict of sets) returns normally only if any two definitions "
             "of one name are the same definition, puts every atom into each of its components and freezes every row unchanged; a normal return of "
             "sort_assignments implies the dependency graph is acyclic and no assignment has a None value (CycleError / GotranxError otherwise); "
-            "a variable node resolved by build_expression is a defined symbol (MissingSymbolError otherwise). Missing / orphan derivatives are decided by the bounded "
-            "stand-in (one fault injected per site).",
-            "check_components, find_state, _handle_assignments are not under contract: missing / orphan derivatives are bounded only"),
+            "a variable node resolved by build_expression is a defined symbol (MissingSymbolError otherwise); check_components returns normally only if "
+            "in every component the states some derivative refers to are exactly the declared states (is_complete, states_with_derivatives with an "
+            "existential witness), ODE.__init__ calls it; Component._handle_assignments returns normally only if every assignment named d<X>_dt "
+            "went through a returning find_state(<X>), whose result is a state of the component with that name (StateNotFoundInComponent otherwise).",
+            "the regular expression d<X>_dt and the attrs machinery (__attrs_post_init__ runs, generated __init__ stores its arguments) are assumed; "
+            "gather_atoms / the symbol_values duplicate check is not under contract (duplicates are decided at TreeToODE.ode)"),
     "C09": ("proof", "Proved: sort_assignments feeds the topological sorter a sequence that is a function of its input only (sorted dependencies), "
             "so its result is a function of the assignments; accessors sort name-unique sets; sorted_assignments, missing_variables are functions "
             "of the model; get_scheme has no effect on module-level state. Every set iteration is executed with an arbitrary fresh order. "
@@ -72,8 +78,9 @@ CLAIMS = {
             "lark's LALR tables not under contract"),
     "C11": ("other", "Nothing here is proved for all inputs. Contract instances (bounded) (exhaustive over sympy's six relational operators; And/Or 2..4 operands; Piecewise 2..4 branches): the .ode "
             "printer overrides spell only functions of the grammar (read mechanically from ode.lark), != is written Not(Eq()), E is written exp(1). "
-            "The writer glue (blocks, ScalarParam) and closure of sympy's normal forms under the grammar are decided by the bounded stand-in "
-            "(save, reload, compare numerically).",
+            "Writer glue on instances: what print_ScalarParam / print_assignment / start_odeblock print is put into a minimal model text and read back "
+            "by the real loader - value, unit, description, comment and component membership come back as they went in. Closure of sympy's normal "
+            "forms under the grammar is decided by the bounded stand-in (save, reload, compare numerically).",
             "bounded in the number of operands/branches; sympy normal forms outside any contract"),
     "C12": ("proof", "Proved: sorted_assignments(remove_unused=True) is the filter of the full sorted list that keeps every non-intermediate, hence "
             "the same derivative subsequence and slots (lemma C12.filter_kept_preserves_sd); dependents() contains every dependency of every "
@@ -82,7 +89,8 @@ CLAIMS = {
             "value equality of the two modules is lemma L3 (not machine-proved); bounded stand-in compares both modules numerically"),
     "C13": ("proof", "Proved: missing_variables is the index over the sorted set of used-but-undefined names; the unpack statements read "
             "missing_variables[idx] with the published index; missing_values writes each requested name to its requested slot; the python and C "
-            "templates name the function missing_index. Bounded stand-in: split every component, feed sub-models each other's values.",
+            "templates name the function missing_index; model - C keeps exactly the components different from C and C.to_ode() is the model of C "
+            "alone. Bounded stand-in: split every component, feed sub-models each other's values.",
             "C backend cannot use missing variables at all (known finding); composition theorem L3 not machine-proved"),
     "C14": ("other", "Contract instances (bounded; only the shape-prologue text is proved for all inputs): every gotranx printer override emits only elementwise numpy calls (no if-expression, no and/or/not, no "
             "tuple stacking) - And/Or 2..4 operands, Not, sign, Equality, Piecewise 2..4 branches; _shape_info text per Shape member; python "
@@ -90,8 +98,9 @@ CLAIMS = {
             "inherited sympy printer methods assumed; bounded in operand count"),
     "C16": ("proof", "Proved: remove_singularities returns the expression unchanged without removable singularities and agrees with it off the "
             "singular points when there is at most one removable singularity (sum-of-conditionals lemma by induction over an arbitrary set "
-            "iteration order). The unrestricted clause fails for two or more removable singularities: listed known finding (pinned by an "
-            "existing test).",
+            "iteration order); Assignment.singularities drops no point that sympy reports for a stateful dependency, whatever kind of value the point "
+            "is, and pairs it with sympy's limit there; Singularity.is_infinite is exactly 'the limit mentions an infinity'. The unrestricted "
+            "clause fails for two or more removable singularities: listed known finding (pinned by an existing test).",
             "sympy singularities/limit/piecewise_fold assumed"),
     "C17": ("proof", "Proved: get_unit_and_comment_from_assignment never lets an exception escape, whatever pint raises for the comment text "
             "(assumed: pint may raise anything); TreeToODE.ode skips Comment and blank-string items and their presence does not affect which "
